@@ -89,7 +89,7 @@ func init() {
 		TestPkg:    "x/watcher", TestName: "TestZSimC40", Porcupine: true,
 		QuickRuns: 20000, ThoroughRuns: 5000000, QuickBudget: 3 * time.Minute, ThoroughBudget: 40 * time.Minute,
 		MaxStepsQuick: 5000, MaxStepsThor: 20000, Chunk: 1250,
-		Rule: "each run draws a workload (1-3 producers reporting into 2-4 directories — FileChanged, EntryDeleted for files and directories, and in 40% of the runs DirAdded over one or two real directory trees below a real watched root; 4% of the runs are bursts: 2-3 producers reporting 30-70 distinct directories each while 1-2 fetchers take 5-30 — 1-3 fetchers, <=24 operations quick / <=40 thorough, then a wake-up phase and a sweep phase) and a scheduling strategy from its seed; the seeded scheduler decides every interleaving at each lock, unlock-wake, cond wait/broadcast and the map iteration order in Fetch. A run is non-trivial when its history has >=2 completed operations and >=2 context switches; distinct = distinct (event-log hash, workload hash) pairs among non-trivial runs",
+		Rule: "each run draws a workload (1-3 producers reporting into 2-4 directories (in 30% of the runs names that differ in case only or by a leading dot; watched roots that do not exist, exist, or exist under a name without letters) — FileChanged, EntryDeleted for files and directories, and in 40% of the runs DirAdded over one or two real directory trees below a real watched root; 4% of the runs are bursts: 2-3 producers reporting 30-70 distinct directories each while 1-2 fetchers take 5-30 — 1-3 fetchers, <=24 operations quick / <=40 thorough, then a wake-up phase and a sweep phase) and a scheduling strategy from its seed; the seeded scheduler decides every interleaving at each lock, unlock-wake, cond wait/broadcast and the map iteration order in Fetch. A run is non-trivial when its history has >=2 completed operations and >=2 context switches; distinct = distinct (event-log hash, workload hash) pairs among non-trivial runs",
 		Real: []string{"x/watcher/changes.go (Changes.FileChanged, EntryDeleted, DirAdded, Ignore, Fetch, lookupMod/deleteMod) compiled from the working tree", "Go runtime, real goroutines released one at a time"},
 		Stubbed: []string{"sync.Mutex and sync.Cond (simulated inside the scheduler; Signal wakes a seeded choice of waiter, no spurious wake-ups)", "map iteration order in Fetch (seeded permutation of the key snapshot)", "the fsnotify event source and watch loop are not exercised (DirAdded, Ignore and the module lookup run for real over a scratch directory)"},
 		Assumptions: []string{"sync.Cond has no spurious wake-ups (documented)", "the standard library is that of go1.26.8", "porcupine v1.3.0 decides linearizability of the recorded history; Unknown (timeout) is counted as inconclusive"},
@@ -124,7 +124,7 @@ func init() {
 		TestPkg: "x/jsonrpc2", TestName: "TestZSimC38",
 		QuickRuns: 4000, ThoroughRuns: 400000, QuickBudget: 4 * time.Minute, ThoroughBudget: 40 * time.Minute,
 		Chunk: 250,
-		Rule: "each run draws 1-7 messages (calls, notifications, responses with result, error or both; integer ids over the whole int64 range and string ids; method names with quotes, unicode, control characters; parameter JSON from a pool including kilobyte-sized values that cross bufio's buffer) and one of four modes: (0) write with the real framer, read back under three seeded chunkings, under EVERY single split position and with the stream cut at EVERY byte offset (EOF or an I/O error, alone or together with the last bytes); (1) the writer's stream fails at a seeded byte offset; one stream call fails part-way; the first stream call of one message's Write is refused with 0 bytes accepted and the message is or is not retried; an unencodable message in between; contexts cancelled before a Read/Write and, for Read, at a seeded read of the underlying stream while the Read is in progress (then retried with a live context); (2) sixteen kinds of definitely malformed frame from an independent reference framer placed at a seeded position between valid frames; (3) seeded byte flips. Non-trivial = at least 2 judged sub-cases; distinct = distinct (sub-case hash, workload hash) pairs",
+		Rule: "each run draws 1-7 messages (calls, notifications, responses with result, error or both; integer ids over the whole int64 range and string ids; method names with quotes, unicode, control characters; parameter JSON from a pool including kilobyte-sized values that cross bufio's buffer) and one of four modes: (0) write with the real framer, read back under three seeded chunkings, under EVERY single split position and with the stream cut at EVERY byte offset (EOF or an I/O error, alone or together with the last bytes); (1) the writer's stream fails at a seeded byte offset; one stream call fails part-way; the first stream call of one message's Write is refused with 0 bytes accepted and the message is or is not retried; an unencodable message in between; a second framer of the same process writing a message while a stream call of the first is in flight; contexts cancelled before a Read/Write and, for Read, at a seeded read of the underlying stream while the Read is in progress (then retried with a live context); (2) sixteen kinds of definitely malformed frame from an independent reference framer placed at a seeded position between valid frames; (3) seeded byte flips. Non-trivial = at least 2 judged sub-cases; distinct = distinct (sub-case hash, workload hash) pairs",
 		Real: []string{"x/jsonrpc2/frame.go (HeaderFramer reader and writer), messages.go (EncodeMessage, DecodeMessage, NewCall, NewNotification, Response), wire.go compiled from the working tree (not instrumented: the code is sequential)", "bufio, encoding/json"},
 		Stubbed: []string{"the byte streams (simulated io.Reader / io.Writer: chunk sizes, (0,nil) reads, data delivered together with the final error, failure at a byte offset)"},
 		Assumptions: []string{"encoding/json (with UseNumber) decides JSON equality of params and results", "ids beyond +-2^53 are outside the default alphabet (decoding goes through float64)", "corrupted streams are only required to terminate without panic; absurd Content-Length values are capped at 64 KiB by the harness"},
@@ -137,7 +137,7 @@ func init() {
 		TestPkg: "tool", TestName: "TestZSimC36",
 		QuickRuns: 4000, ThoroughRuns: 400000, QuickBudget: 4 * time.Minute, ThoroughBudget: 40 * time.Minute,
 		Chunk: 250,
-		Rule: "each run draws a history of 4-29 (thorough: 4-60) operations on a module package directory — create, same-size rewrite, append, truncate, touch, rename, delete, mkdir, file in a sub-directory — over 10 compilable names (.go .xgo .gop .gox incl. dot-files, _test files, gop_autogen.go) and 10 irrelevant ones (underscore-prefixed, other extensions, backup suffixes), each stamped from a simulated clock that advances by 0, 1ns, sub-second, seconds, an hour or jumps backwards, truncated to a per-run mtime granularity (1ns, 1us, 1s, 2s); after every step PkgHash is recomputed and compared with the reference projection read back from the directory. 8% of the runs start with 16-65 further source files (half of them with ~100-byte names). Further step kinds: ONE file is deleted, hidden, created or touched WHILE PkgHash runs, at a seeded point of its scan (the hash must equal the quiescent hash before or after); the hash is asked for while the listing fails with EIO or the directory has been moved away (not judged itself, the following hashes are). Non-trivial = at least 3 judged steps of which at least 1 changed the projection; distinct = distinct (step/hash log, workload hash) pairs",
+		Rule: "each run draws a history of 4-29 (thorough: 4-60) operations on a module package directory — create, same-size rewrite, append, truncate, touch, rename, delete, mkdir, file in a sub-directory — over 10 compilable names (.go .xgo .gop .gox incl. dot-files, _test files, gop_autogen.go) and 10 irrelevant ones (underscore-prefixed, other extensions, backup suffixes), each stamped from a simulated clock that advances by 0, 1ns, sub-second, seconds, an hour or jumps backwards, truncated to a per-run mtime granularity (1ns, 1us, 1s, 2s); after every step PkgHash is recomputed and compared with the reference projection read back from the directory. 8% of the runs start with 16-65 further source files (half of them with ~100-byte names), 1% with 260-340. Further step kinds: ONE file is deleted, hidden, created or touched WHILE PkgHash runs, at a seeded point of its scan (the hash must equal the quiescent hash before or after); the hash is asked for while the listing fails with EIO or the directory has been moved away (not judged itself, the following hashes are). Non-trivial = at least 3 judged steps of which at least 1 changed the projection; distinct = distinct (step/hash log, workload hash) pairs",
 		Real: []string{"tool/imp.go (NewImporter, Importer.PkgHash, dirHash, canCl) compiled from the working tree; it is sequential today, but it is instrumented and runs under the seeded scheduler so that goroutines, locks or map iteration added to it are decided by the simulator too", "goplus/mod module lookup, a real directory on tmpfs"},
 		Stubbed: []string{"the clock that stamps files (os.Chtimes from a simulated clock with granularity knob)", "the history of file-system operations (generated)"},
 		Assumptions: []string{"regular files only: no symlinks, devices, or names with control characters", "class-file extensions registered through go.mod are not exercised (the module registers none)", "only consecutive states are compared, as the statement says"},
